@@ -184,6 +184,13 @@ def convert_via(route, tree):
 
 def check_case(case):
     H.setup_path()
+    if case.get("kind") == "long":
+        cls = M.universe()[case["cls"]]
+        mt = sorted(M.member_types(cls).items())
+        le = M.list_elem(cls)
+        desc = M.minimal(cls, with_member=(M.minimal_scalar(le[1]) if le else mt[case["which"]][1].__name__))
+        desc["list"] = [copy.deepcopy(desc["list"][0]) for _ in range(case["n"])]
+        return [(k + "/long-list", d) for k, d in check_case({"inst": desc, "ins": case["ins"], "routes": case["routes"]})]
     desc = case["inst"]
     out = []
     with warnings.catch_warnings():
@@ -243,7 +250,42 @@ def _worker(job):
     return s
 
 
+def _long_worker(names):
+    """Aggregates with hundreds of list members (a year of transactions, a large security list): insertions directly inside
+    the long list and inside one of its members."""
+    H.setup_path()
+    s = H.Stats()
+    U = M.universe()
+    for name in names:
+        cls = U[name]
+        mt = sorted(M.member_types(cls).items())
+        le = M.list_elem(cls)
+        if not mt and not le:
+            continue
+        for n, which in ((260, 0), (600, len(mt) - 1 if mt else 0)):
+            if n == 600 and name not in ("BANKTRANLIST", "INVTRANLIST", "SECLIST", "INVPOSLIST"):
+                continue
+            try:
+                with warnings.catch_warnings():
+                    warnings.simplefilter("ignore")
+                    desc = M.minimal(cls, with_member=(M.minimal_scalar(le[1]) if le else mt[which][1].__name__))
+                    if not desc["list"]:
+                        continue
+                    desc["list"] = [copy.deepcopy(desc["list"][0]) for _ in range(n)]
+                    M.build(desc)
+            except Exception:
+                continue  # the class does not take that many members (ACCTINFO: one per kind)
+            for ins in ([[0, n // 2, 0, 1], [0, 3, 2, 4]], [[0, n // 3, 1, 2], [1, 0, 0, 5], [0, n, 4, 1]]):
+                case = {"inst": desc, "ins": ins, "routes": ["etree", "sgml"] if n < 500 else ["xml"]}
+                s.case({"cls": name, "members": n, "ins": ins}, nontrivial=True, labels=["long list (%d members)" % n])
+                for k, d in check_case(case):
+                    s.fail(k + "/long-list", {"kind": "long", "cls": name, "n": n, "which": which, "ins": ins, "routes": case["routes"]}, d)
+    return s
+
+
 def run(ctx):
     names = sorted(M.universe())
+    listy = [n for n in names if M.has_list(M.universe()[n])]
+    ctx.pmap(_long_worker, [listy[i::16] for i in range(16)])
     n = ctx.scale(8, 120)
     ctx.pmap(_worker, [(names[i::48], n, ctx.sub_seed("cls")) for i in range(48)])
